@@ -412,7 +412,21 @@ def state_fields(pm, clsname):
     best_fields = [f for f in fields if f.startswith("self.best_") and f != "self.best_model"]
     counter_fields = [f for f in fields if "since" in f or "counter" in f or "wait" in f]
     if len(best_fields) != 1 or len(counter_fields) != 1:
-        raise AnalysisError("%s: cannot identify the best-loss / counter state fields (%s / %s)" % (clsname, best_fields, counter_fields))
+        # names are not conventional: identify the fields by their role in stop()
+        stop = pm.func(STOP_MOD, clsname + ".stop")
+        attrs = lambda e: [n for n in ast.walk(e) if isinstance(n, ast.Attribute) and isinstance(n.value, ast.Name) and n.value.id == "self"]
+        counter_fields = []
+        for r in ast.walk(stop):
+            if isinstance(r, ast.Return) and r.value is not None and any(a.attr == "patience" for a in attrs(r.value)):
+                counter_fields = ["self." + a.attr for a in attrs(r.value) if a.attr != "patience"]
+        init_numeric = []
+        for st in ast.walk(init):
+            if isinstance(st, ast.Assign) and any(isinstance(n, ast.Attribute) and n.attr == "inf" for n in ast.walk(st.value)):
+                init_numeric += [ast.unparse(t) for t in st.targets]
+        best_fields = init_numeric
+        if len(best_fields) != 1 or len(set(counter_fields)) != 1:
+            raise AnalysisError("%s: cannot identify the best-loss / counter state fields (%s / %s)" % (clsname, best_fields, counter_fields))
+        counter_fields = [counter_fields[0]]
     return best_fields[0][5:], counter_fields[0][5:]
 
 
